@@ -47,7 +47,22 @@ type PoliciesData struct {
 
 type StreamsData struct {
 	stream        *streams.Stream
+	streamLock    sync.RWMutex // transactions read the engine while a reload replaces it
 	flowValidator *validation.Validator
+}
+
+// getStream returns the stream engine that currently serves transactions.
+func (sd *StreamsData) getStream() *streams.Stream {
+	sd.streamLock.RLock()
+	defer sd.streamLock.RUnlock()
+	return sd.stream
+}
+
+// setStream publishes a new stream engine.
+func (sd *StreamsData) setStream(stream *streams.Stream) {
+	sd.streamLock.Lock()
+	sd.stream = stream
+	sd.streamLock.Unlock()
 }
 
 type HandlingDataManager struct {
@@ -103,7 +118,7 @@ func (rd *HandlingDataManager) Setup(telemetryWriter *logging.LunarTelemetryWrit
 		if err != nil {
 			return fmt.Errorf("failed to initialize metric manager: %w", err)
 		}
-		rd.metricManager.UpdateMetricsForFlow(rd.stream)
+		rd.metricManager.UpdateMetricsForFlow(rd.getStream())
 		return nil
 	}
 	rd.doctor.WithPolicies(rd.GetTxnPoliciesAccessor)
@@ -137,8 +152,8 @@ func (rd *HandlingDataManager) GetTxnPoliciesAccessor() *config.TxnPoliciesAcces
 }
 
 func (rd *HandlingDataManager) GetLoadedStreamsConfig() *network.ConfigurationData {
-	if rd.isStreamsEnabled && rd.stream != nil {
-		f := rd.stream.GetLoadedConfig()
+	if rd.isStreamsEnabled && rd.getStream() != nil {
+		f := rd.getStream().GetLoadedConfig()
 		return &f
 	}
 	return nil
@@ -232,7 +247,7 @@ func (rd *HandlingDataManager) initializeStreams() (err error) {
 	statusMsg.AddMessage(lunarEngine, "Engine: Lunar Flows")
 	_ = lunar_context.NewSharedState[int64]() // For Redis initialization
 	var previousHaProxyReq *config.HAProxyEndpointsRequest
-	if rd.stream != nil {
+	if rd.getStream() != nil {
 		previousHaProxyReq = rd.buildHAProxyFlowsEndpointsRequest()
 	}
 
@@ -246,9 +261,9 @@ func (rd *HandlingDataManager) initializeStreams() (err error) {
 	if err = stream.Initialize(); err != nil {
 		return fmt.Errorf("failed to initialize streams: %w", err)
 	}
-	rd.stream = stream
+	rd.setStream(stream)
 
-	rd.stream.InitializeHubCommunication()
+	rd.getStream().InitializeHubCommunication()
 	if err = config.WaitForProxyHealthcheck(); err != nil {
 		return fmt.Errorf("failed to wait for HAProxy healthcheck: %w", err)
 	}
@@ -318,7 +333,7 @@ func (rd *HandlingDataManager) handleOnError() func(http.ResponseWriter, *http.R
 		}
 
 		for failedTransactionID := range failedTransactions.FailedTransactions {
-			rd.stream.OnError(failedTransactionID)
+			rd.getStream().OnError(failedTransactionID)
 		}
 
 		SuccessResponse(writer, "Error logged successfully")
@@ -559,7 +574,7 @@ func (rd *HandlingDataManager) buildHAProxyFlowsEndpointsRequest() *config.HAPro
 	reqCaptureForAll := false
 
 	managedEndpoints := []*config.HAProxyEndpointData{}
-	for _, filters := range rd.stream.GetSupportedFilters() {
+	for _, filters := range rd.getStream().GetSupportedFilters() {
 		if len(filters) == 0 {
 			continue
 		}
@@ -663,6 +678,6 @@ func (rd *HandlingDataManager) reloadFlows() error {
 		return fmt.Errorf("failed to load metrics config: %v", err)
 	}
 
-	rd.metricManager.UpdateMetricsForFlow(rd.stream)
+	rd.metricManager.UpdateMetricsForFlow(rd.getStream())
 	return nil
 }
